@@ -264,11 +264,22 @@ class Walk:
                 if text is None or norm(text) not in self.wrote[s]:
                     self.fail("blame", where, r.head(), p, ln, text, s)
 
+    def is_tweak_of_own(self, text, s):
+        """`text` is `<line session s wrote> m<k>…`: a person's in-place modification of that line"""
+        import re
+        m = re.match(r"^(.*) m\d+$", text)
+        while m:
+            if norm(m.group(1)) in self.wrote[s]:
+                return True
+            m = re.match(r"^(.*) m\d+$", m.group(1))
+        return False
+
     def fail(self, kind, where, sha, p, ln, text, s):
         base = p[:-6] if p.endswith(".moved") else p
         if p in self.tainted or base in self.tainted or (p + ".moved") in self.tainted:
             sig = "pending-ai-lines-edited-by-person-before-next-checkpoint"
-        elif text is not None and text.startswith("hum-") and (p in self.recon_taint or base in self.recon_taint):
+        elif text is not None and (text.startswith("hum-") or self.is_tweak_of_own(text, s)) and \
+                (p in self.recon_taint or base in self.recon_taint):
             sig = "reconstruction-keeps-ai-on-line-rewritten-by-person"
         elif (kind == "note" and ln in self.overlap.get(sha, {}).get(p, set())) or \
                 (kind == "blame" and any(p in ov or base in ov for ov in self.overlap.values())):
